@@ -35,6 +35,22 @@ Qed.
 
 (* the verdict depends on the form only through five fields: nothing else (key, bucket, content length, other
    fields) and nothing INSIDE the policy document is examined - this is the known finding post-policy-not-evaluated *)
+(* the converse: a form meeting every condition is accepted with exactly that identity *)
+Theorem post_accept_complete fields f policy credv datev sgv cred iso date secret :
+  auth = Some f ->
+  find_field (b "policy") fields = Some policy -> is_base64_encoded policy = true ->
+  find_field (b "x-amz-algorithm") fields = Some (b "AWS4-HMAC-SHA256") ->
+  find_field (b "x-amz-credential") fields = Some credv -> parse_credential_full credv = Some cred ->
+  find_field (b "x-amz-date") fields = Some datev -> parse_amz_date datev = Some (iso, date) -> c_date cred = date ->
+  find_field (b "x-amz-signature") fields = Some sgv -> f (c_ak cred) = Some secret ->
+  sgv = calculate_signature H policy secret date (c_region cred) (c_service cred) ->
+  post_check H auth fields = Accept (c_ak cred) (c_region cred) (c_service cred) None.
+Proof.
+  intros Ea E1 Hb E2 E3 Ec E4 Ed Ecd E5 Es ->. unfold post_check.
+  rewrite Ea, E1, E2, E3, E4, E5, Hb. cbn [negb]. rewrite beq_refl. cbn [negb]. rewrite Ec, Ed, Ecd, beq_refl. cbn [negb].
+  rewrite Es, beq_refl. reflexivity.
+Qed.
+
 Theorem post_check_only_five_fields f1 f2 :
   (forall k, In k [b "policy"; b "x-amz-algorithm"; b "x-amz-credential"; b "x-amz-date"; b "x-amz-signature"] ->
              find_field k f1 = find_field k f2) ->
